@@ -72,9 +72,10 @@ LEADS = ['{n}*{m}+{o}', '2*({n}-{m})', 'max({n},{m})', '{n}**2', '{n}', '-{n}', 
 
 def gen_history(rng):
     names = rng.sample(POOL, rng.randint(1, 6))
-    kind = rng.choice(['none', 'none', 'emptylist', 'blob', 'blob', 'blob', 'strrhs', 'like_term'])
+    kind = rng.choice(['none', 'none', 'emptylist', 'blob', 'blob', 'blob', 'strrhs', 'like_term', 'one_string',
+                       'one_string_comment'])
     lead = None
-    if kind in ('blob', 'strrhs'):
+    if kind in ('blob', 'strrhs', 'one_string', 'one_string_comment'):
         t = rng.choice(LEADS[:-1])
         lead = t.format(n=rng.choice(names), m=rng.choice(names), o=rng.choice(names))
     elif kind == 'like_term':
@@ -174,6 +175,10 @@ class C12(object):
             eq = Equation('v', 'desc')
         elif kind == 'emptylist':
             eq = Equation('v', 'desc', rhs=[])
+        elif kind == 'one_string':
+            eq = Equation('v = ' + lead)                       # "lhs = rhs" in the first argument
+        elif kind == 'one_string_comment':
+            eq = Equation('v = ' + lead + '  # a description with = and # inside')
         elif kind in ('blob', 'like_term'):
             eq = Equation('v', 'desc', rhs=[Term(lead, is_blob=True)])
         else:
